@@ -102,16 +102,103 @@ def _has_exit(stmts):
     return False
 
 
+def _find_path(tree, path):
+    """the chain of nested `def`s (or a class, then its method) named by `path`; each name must be
+    defined exactly once, directly in the body of the previous one"""
+    node, chain = tree, []
+    for i, name in enumerate(path):
+        hits = [n for n in node.body if isinstance(n, (ast.FunctionDef, ast.ClassDef)) and n.name == name]
+        if len(hits) != 1:
+            raise Unsupported(f"{'.'.join(path[:i + 1])}: found {len(hits)} definitions")
+        node = hits[0]
+        chain.append(node)
+    if not isinstance(node, ast.FunctionDef):
+        raise Unsupported(f"{'.'.join(path)} is not a function")
+    return chain
+
+
+class _Scope(ast.NodeVisitor):
+    """names bound / loaded in ONE function scope (inner functions are collected, not entered)"""
+
+    def __init__(self):
+        self.bound, self.loads, self.inner = set(), set(), []
+
+    def visit_FunctionDef(self, n):
+        self.bound.add(n.name)
+        self.inner.append(n)
+        for d in list(n.args.defaults) + [d for d in n.args.kw_defaults if d is not None]:
+            self.visit(d)  # defaults are evaluated in the enclosing scope
+
+    def visit_Lambda(self, n):
+        self.inner.append(n)
+
+    def visit_ClassDef(self, n):
+        raise Unsupported("class definition inside a function")
+
+    def visit_Global(self, n):
+        raise Unsupported("global statement")
+
+    def visit_Nonlocal(self, n):
+        raise Unsupported("nonlocal statement")
+
+    def visit_Name(self, n):
+        (self.loads if isinstance(n.ctx, ast.Load) else self.bound).add(n.id)
+
+
+def _fn_args(fn):
+    a = fn.args
+    if a.vararg or a.kwarg or a.kwonlyargs or a.posonlyargs:
+        raise Unsupported(f"signature of {getattr(fn, 'name', '<lambda>')} (*args / ** / keyword-only)")
+    return [x.arg for x in a.args]
+
+
+def _scope_of(fn):
+    sc = _Scope()
+    body = fn.body if isinstance(fn.body, list) else [fn.body]
+    for st in body:
+        sc.visit(st)
+    sc.bound |= set(_fn_args(fn))
+    return sc
+
+
+def _free_names(fn):
+    """names read in `fn` (or in functions nested in it) that are not bound in `fn`'s own scope"""
+    sc = _scope_of(fn)
+    free = set(sc.loads)
+    for inner in sc.inner:
+        free |= _free_names(inner)
+    return free - sc.bound
+
+
+def _closure_of(chain):
+    """(value closure variables, enclosing functions referenced) of chain[-1]: its free names that are
+    bound in an enclosing FUNCTION scope (module-level names and builtins are not closure variables)"""
+    fn = chain[-1]
+    free = _free_names(fn)
+    values, funcs = set(), set()
+    for enc in chain[:-1]:
+        if not isinstance(enc, ast.FunctionDef):
+            continue
+        sc = _scope_of(enc)
+        inner_names = {i.name for i in sc.inner if isinstance(i, ast.FunctionDef)}
+        for nm in free & sc.bound:
+            (funcs if nm in inner_names else values).add(nm)
+    return values - funcs, funcs
+
+
 class Target:
     """One function to translate.
 
     kind      'method'  state-passing: returns `Except Err (Self × K)` (or `Except Err Self` if `unit`)
               'pure'    returns the value of the `return` expression (type `ret`)
+              'except'  returns `Except Err ret`: `return e` is `.ok e`, `raise` is `.error`, and calls of
+                        other 'except' functions (fuelled recursion) are binds / tail calls
     """
 
     def __init__(self, lean_name, rel, cls, func, *, self_type=None, params=(), ret="K", kind="pure",
                  attrs=None, props=None, err_type=None, errs=None, calls=None, noise=None, unit=False,
-                 extra_binders="", select=None, doc="", bool_result=False, locals_types=None, group="Battery"):
+                 extra_binders="", select=None, doc="", bool_result=False, locals_types=None, group="Battery",
+                 path=None, fuel=False, rec_err=None, inputs=None, colls=None):
         self.lean_name = lean_name
         self.rel = rel
         self.cls = cls
@@ -133,14 +220,33 @@ class Target:
         self.bool_result = bool_result
         self.locals_types = locals_types or {}
         self.group = group
+        # nested / module-level function addressed by its chain of `def` names, e.g.
+        # ("batt_cap_fn", "_get_init_cap", "binsearch"); closure variables are the params named "^x"
+        self.path = tuple(path) if path else None
+        self.fuel = fuel          # takes a `fuel : Nat` (Python recursion depth); kind must be 'except'
+        self.rec_err = rec_err    # the error reported at fuel 0 (Python: RecursionError)
+        # source text of an (untranslatable) sub-expression -> the lean input standing for its value
+        self.inputs = inputs or {}
+        # source text of an iterable / sized object -> {"list": lean list, "attrs": {python attribute of an
+        # element: lean field}, "props": {python property of an element: (file, class, property)}}
+        self.colls = colls or {}
 
 
 class Tr:
-    def __init__(self, target: Target, source: str, tree: ast.AST):
+    def __init__(self, target: Target, source: str, tree: ast.AST, done=None):
         self.t = target
         self.source = source
         self.tree = tree
-        self.pnames = {p[0]: p[1] for p in target.params}
+        # python name -> lean binder; a closure variable "^x" is read as `x`
+        # a parameter of type "-" exists in the Python signature but is not handed to the Lean definition:
+        # reading it is `Unsupported`
+        self.pnames = {p[0].lstrip("^"): p[1] for p in target.params if p[2] != "-"}
+        self.ptypes = {p[0].lstrip("^"): p[2] for p in target.params if p[2] != "-"}
+        self.done = done if done is not None else {}  # lean names translated earlier in this run
+        self.elems = {}      # comprehension variable -> the collection it ranges over
+        self.btypes = {p[1]: p[2] for p in target.params if p[2] != "-"}  # lean binder -> type
+        self.ltypes = {}     # translated local -> "Nat" / "Int" (everything else is a `K`)
+        self.nat_names = set()  # locals holding a count / length (a Lean `Nat`)
 
     # ------------------------------------------------------------------ literals
     def lit(self, node):
@@ -165,8 +271,13 @@ class Tr:
 
     # ------------------------------------------------------------------ expressions (numeric)
     def expr(self, n, env):
+        if self.t.inputs and not isinstance(n, ast.Constant) and ast.unparse(n) in self.t.inputs:
+            return self.input(n, env)
         if isinstance(n, ast.Constant):
             return self.lit(n)
+        if self.is_nat(n, env):
+            # an integer count used as a number: exact in the carrier (Python's int → float conversion)
+            return f"(({self.nat(n, env)} : Nat) : K)"
         if isinstance(n, ast.Name):
             if n.id in env:
                 return env[n.id]
@@ -194,9 +305,108 @@ class Tr:
             return self.bexpr(n, env)
         raise Unsupported(f"expression {type(n).__name__}")
 
+    # ------------------------------------------------------------------ counts, lengths, generator sums
+    def _gen(self, n):
+        """(generator, collection) of `sum(<elt> for v in <mapped collection> [if …])`"""
+        if not (isinstance(n, ast.Call) and isinstance(n.func, ast.Name) and n.func.id == "sum" and len(n.args) == 1
+                and not n.keywords and isinstance(n.args[0], ast.GeneratorExp)):
+            return None
+        g = n.args[0]
+        if len(g.generators) != 1 or g.generators[0].is_async or not isinstance(g.generators[0].target, ast.Name):
+            raise Unsupported("generator expression with several clauses / a pattern target")
+        coll = self.t.colls.get(ast.unparse(g.generators[0].iter))
+        if coll is None:
+            raise Unsupported(f"iteration over {ast.unparse(g.generators[0].iter)}")
+        return g, coll
+
+    def is_nat(self, n, env):
+        if self.t.inputs and not isinstance(n, ast.Constant) and ast.unparse(n) in self.t.inputs:
+            return False  # a declared input (its type is the binder's)
+        if isinstance(n, ast.Name):
+            return n.id in self.nat_names and n.id in env
+        if isinstance(n, ast.Call) and isinstance(n.func, ast.Name) and "sum" not in env and "len" not in env:
+            if n.func.id == "len" and len(n.args) == 1 and not n.keywords:
+                return True
+            if n.func.id == "sum" and self.t.colls:
+                gc = self._gen(n)
+                return gc is not None and isinstance(gc[0].elt, ast.Constant) and gc[0].elt.value == 1 \
+                    and not isinstance(gc[0].elt.value, bool) and isinstance(gc[0].elt.value, int)
+        return False
+
+    def _filtered(self, g, coll, env):
+        var = g.generators[0].target.id
+        if var in env or var in self.pnames or var in self.elems:
+            raise Unsupported(f"comprehension variable {var} shadows another name")
+        self.elems[var] = coll
+        try:
+            env2 = dict(env)
+            env2[var] = var
+            conds = [self.bexpr(c, env2) for c in g.generators[0].ifs]
+            lst = coll["list"]
+            if conds:
+                lst = f"({lst}.filter (fun {var} => {' && '.join(conds)}))"
+            elt = None if (isinstance(g.elt, ast.Constant) and g.elt.value == 1) else self.expr(g.elt, env2)
+        finally:
+            del self.elems[var]
+        return var, lst, elt
+
+    def nat(self, n, env):
+        """a Lean `Nat`: `len(<mapped collection>)`, `sum(1 for v in <mapped collection> if …)`, a count local"""
+        if isinstance(n, ast.Name):
+            return env[n.id]
+        if n.func.id == "len":
+            coll = self.t.colls.get(ast.unparse(n.args[0]))
+            if coll is None:
+                raise Unsupported(f"len({ast.unparse(n.args[0])})")
+            return f"({coll['list']}.length)"
+        g, coll = self._gen(n)
+        _var, lst, _elt = self._filtered(g, coll, env)
+        return f"({lst}.length)"
+
+    def gensum(self, n, env):
+        """`sum(e for v in xs if c)`: Python adds left to right starting from 0 — `sumK` of the mapped list"""
+        g, coll = self._gen(n)
+        var, lst, elt = self._filtered(g, coll, env)
+        return f"(sumK ({lst}.map (fun {var} => {elt})))"
+
+    def elem_attr(self, n, env):
+        """`v.<a>` for a comprehension variable `v`"""
+        var = n.value.id
+        coll = self.elems[var]
+        if n.attr in coll.get("attrs", {}):
+            return f"{var}.{coll['attrs'][n.attr]}"
+        if n.attr in coll.get("props", {}):
+            rel, cls, func = coll["props"][n.attr]
+            src = _src(rel)
+            fn = _find_path(ast.parse(src), (cls, func))[-1]
+            if [ast.unparse(d) for d in fn.decorator_list] != ["property"] or _fn_args(fn) != ["self"]:
+                raise Unsupported(f"{cls}.{func} is not a property")
+            body = [st for st in fn.body if not _is_docstring(st)]
+            if len(body) != 1 or not isinstance(body[0], ast.Return) or body[0].value is None:
+                raise Unsupported(f"property {cls}.{func} is not a single return")
+            t2 = Target(self.t.lean_name, rel, cls, func,
+                        attrs={k: f"{var}.{v}" for k, v in coll.get("attrs", {}).items()}, params=[])
+            return Tr(t2, src, None).expr(body[0].value, {})
+        raise Unsupported(f"attribute {ast.unparse(n)}")
+
+    def input(self, n, env):
+        """a sub-expression the target declares as an INPUT (by its source text): it must not mention a
+        local that the translated part has (re)assigned — then it would not be the same value"""
+        for m in ast.walk(n):
+            if isinstance(m, ast.Name) and m.id in env:
+                raise Unsupported(f"input expression {ast.unparse(n)} reads the translated local {m.id}")
+        return self.t.inputs[ast.unparse(n)]
+
     def attr(self, n, env):
+        if isinstance(n.value, ast.Name) and n.value.id in self.elems and n.value.id in env:
+            return self.elem_attr(n, env)
         # self.<a>
         if isinstance(n.value, ast.Name) and n.value.id == "self":
+            if self.t.attrs.get(n.attr) == "@":
+                # an attribute tracked like a local: readable once the translated part has assigned it
+                if self.attr_local(n.attr) not in env:
+                    raise Unsupported(f"self.{n.attr} is read before it is assigned")
+                return env[self.attr_local(n.attr)]
             if n.attr in self.t.attrs:
                 return self.t.attrs[n.attr].replace("self", env.get("self", "self"))
             if n.attr in self.t.props:
@@ -255,6 +465,8 @@ class Tr:
             raise Unsupported("min arity")
         if fname == "abs":
             return f"(absK {self.expr(n.args[0], env)})"
+        if fname == "sum" and self.t.colls and "sum" not in env and self._gen(n) is not None:
+            return self.gensum(n, env)
         if fname in ("np.exp", "numpy.exp", "math.exp"):
             return f"(HasExp.exp {self.expr(n.args[0], env)})"
         if fname in ("np.random.normal", "numpy.random.normal"):
@@ -278,7 +490,123 @@ class Tr:
             return f"({xs}.any (fun a => isclose0 {a} a {atol}))"
         if fname in self.t.calls:
             raise Unsupported(f"call {fname} is only supported as a statement-level bind")
+        if isinstance(f, ast.Attribute) and isinstance(f.value, ast.Name) and f.value.id == "self" \
+                and f.attr in self.t.props and not n.args and not n.keywords:
+            # `self.m()` for a method `m(self)` whose body is a single `return`: inlined like a property
+            cls, func = self.t.props[f.attr]
+            m = _find_func(_find_class(self.tree, cls), func)
+            if m.decorator_list or _fn_args(m) != ["self"]:
+                raise Unsupported(f"{cls}.{func} is not a plain method without arguments")
+            return self.inline_prop(f.attr, env)
+        if isinstance(f, ast.Name) and f.id not in env and "→" in self.ptypes.get(f.id, ""):
+            # a parameter of function type
+            if n.keywords or len(n.args) != self.ptypes[f.id].count("→"):
+                raise Unsupported(f"call of the function parameter {f.id}")
+            return f"({self.pnames[f.id]} {' '.join(self.expr(a, env) for a in n.args)})"
+        if self.is_fcall(n, env):
+            e, is_except = self.fcall(n, env)
+            if is_except:
+                raise Unsupported(f"call of the fuelled function {fname} inside an expression")
+            return e
         raise Unsupported(f"call {fname}")
+
+    # ------------------------------------------------------------------ translated (inner) functions
+    def callee(self, name, env):
+        """the Target of a function that may be called by its Python name here: the function itself
+        (recursion) or an inner function whose `def` statement has been executed (`def:<name>` in env)"""
+        t = self.t
+        if t.path is None:
+            return None
+        if name in env or (name in self.pnames):
+            return None  # shadowed by a local / parameter
+        if name == t.path[-1] and f"def:{name}" not in env:
+            return t
+        if f"def:{name}" in env:
+            ct = PATHS.get((t.rel, t.path + (name,)))
+            if ct is None:
+                raise Unsupported(f"inner function {name} is not a translation target")
+            if self.done.get(ct.lean_name) != "ok":
+                raise Unsupported(f"inner function {name} was not translated")
+            return ct
+        # a module-level function of the same file that is a translation target — unless the name is bound
+        # in an enclosing function scope (then it is something else)
+        ct = PATHS.get((t.rel, (name,)))
+        if ct is not None and ct is not t:
+            for enc in _find_path(self.tree, t.path):
+                if isinstance(enc, ast.FunctionDef) and name in _scope_of(enc).bound:
+                    return None
+            if self.done.get(ct.lean_name) != "ok":
+                raise Unsupported(f"function {name} was not translated")
+            return ct
+        return None
+
+    def is_fcall(self, n, env):
+        return isinstance(n, ast.Call) and isinstance(n.func, ast.Name) and self.callee(n.func.id, env) is not None
+
+    def fvalue(self, node, env, ty):
+        """a function passed as an argument: a function-typed parameter, or an inner function partially
+        applied to its closure variables (Python closures read them at call time; the callee runs before
+        the caller's next statement, so the caller's current values are the ones it sees)"""
+        if not isinstance(node, ast.Name):
+            raise Unsupported(f"function argument {ast.unparse(node)}")
+        if node.id not in env and "→" in self.ptypes.get(node.id, ""):
+            if self.ptypes[node.id].replace(" ", "") != ty.replace(" ", ""):
+                raise Unsupported(f"function parameter {node.id} passed at type {ty}")
+            return self.pnames[node.id]
+        ct = self.callee(node.id, env)
+        if ct is None or ct is self.t:
+            raise Unsupported(f"function argument {node.id}")
+        if ct.kind != "pure" or ct.fuel:
+            raise Unsupported(f"function argument {node.id} is not a pure translated function")
+        own = [p for p in ct.params if not p[0].startswith("^")]
+        if any(p[0].startswith("$") for p in own):
+            raise Unsupported(f"function argument {node.id} has extra inputs")
+        got = " → ".join([p[2] for p in own] + [ct.ret]).replace(" ", "")
+        if got != ty.replace(" ", ""):
+            raise Unsupported(f"function argument {node.id} : {got}, expected {ty}")
+        clos = [self.expr(ast.Name(id=p[0][1:], ctx=ast.Load()), env) for p in ct.params if p[0].startswith("^")]
+        return f"({ct.lean_name} {' '.join(clos)})" if clos else ct.lean_name
+
+    def fcall(self, n, env):
+        """call of a translated function by its Python name → (lean expression, returns-Except?)"""
+        name = n.func.id
+        ct = self.callee(name, env)
+        fn = _find_path(self.tree, ct.path)[-1]
+        pyargs = _fn_args(fn)
+        defaults = dict(zip(pyargs[len(pyargs) - len(fn.args.defaults):], fn.args.defaults))
+        given = {}
+        if len(n.args) > len(pyargs):
+            raise Unsupported(f"too many arguments for {name}")
+        for i, a in enumerate(n.args):
+            if isinstance(a, ast.Starred):
+                raise Unsupported("starred argument")
+            given[pyargs[i]] = a
+        for k in n.keywords:
+            if k.arg is None or k.arg not in pyargs or k.arg in given:
+                raise Unsupported(f"keyword argument {k.arg} of {name}")
+            given[k.arg] = k.value
+        args = []
+        for py, _ln, ty in ct.params:
+            if py.startswith("^"):
+                args.append(self.expr(ast.Name(id=py[1:], ctx=ast.Load()), env))
+            elif py.startswith("$"):
+                raise Unsupported(f"{name} has extra inputs")
+            elif py in given:
+                args.append(self.fvalue(given[py], env, ty) if "→" in ty else self.expr(given[py], env))
+            elif py in defaults:
+                d = defaults[py]
+                if not (isinstance(d, ast.Constant) and isinstance(d.value, (int, float)) and not isinstance(d.value, bool)):
+                    raise Unsupported(f"default of {name}({py}) is not a numeric literal")
+                args.append(self.lit(d))
+            else:
+                raise Unsupported(f"missing argument {py} of {name}")
+        if set(given) - {p[0] for p in ct.params}:
+            raise Unsupported(f"arguments of {name}")
+        if ct.fuel:
+            if not self.t.fuel:
+                raise Unsupported(f"call of the fuelled function {name} from a function without fuel")
+            args.insert(0, "fuel")
+        return f"({ct.lean_name} {' '.join(args)})", ct.kind == "except"
 
     def _isclose_tols(self, n, env):
         kw = {k.arg: k.value for k in n.keywords}
@@ -294,7 +622,55 @@ class Tr:
         return f"(isclose0 {a} {b} {self._isclose_tols(n, env)})"
 
     # ------------------------------------------------------------------ conditions
+    def etype(self, n, env):
+        """"Nat" / "Int" for an integer-valued atom, "lit" for an int literal, "K" for everything else"""
+        if self.t.inputs and not isinstance(n, ast.Constant) and ast.unparse(n) in self.t.inputs:
+            ty = self.btypes.get(self.t.inputs[ast.unparse(n)], "K")
+            return ty if ty in ("Nat", "Int") else "K"
+        if isinstance(n, ast.Constant) and isinstance(n.value, int) and not isinstance(n.value, bool):
+            return "lit"
+        if self.is_nat(n, env):
+            return "Nat"
+        if isinstance(n, ast.Name):
+            if n.id in env:
+                return self.ltypes.get(n.id, "K")
+            ty = self.ptypes.get(n.id)
+            return ty if ty in ("Nat", "Int") else "K"
+        if isinstance(n, ast.Attribute) and isinstance(n.value, ast.Name) and n.value.id == "self" \
+                and self.t.attrs.get(n.attr) == "@":
+            return self.ltypes.get(self.attr_local(n.attr), "K")
+        return "K"
+
+    def int_cmp(self, left, op, right, env):
+        """comparison of two integer-valued atoms (None if this is a comparison in the carrier)"""
+        tl, tr_ = self.etype(left, env), self.etype(right, env)
+        tys = {tl, tr_} - {"lit"}
+        if not tys & {"Nat", "Int"}:
+            return None
+        if len(tys) != 1:
+            raise Unsupported(f"comparison of a {tl} with a {tr_}")
+        ty = tys.pop()
+
+        def atom(n, t):
+            if t == "lit":
+                if n.value < 0 and ty == "Nat":
+                    raise Unsupported("negative literal compared with a count")
+                return f"({n.value} : {ty})"
+            return self.nat(n, env) if self.is_nat(n, env) else self.expr(n, env)
+        l, r = atom(left, tl), atom(right, tr_)
+        rel = {ast.Lt: f"{l} < {r}", ast.LtE: f"{l} ≤ {r}", ast.Gt: f"{r} < {l}", ast.GtE: f"{r} ≤ {l}",
+               ast.Eq: f"{l} = {r}", ast.NotEq: f"¬ ({l} = {r})"}.get(type(op))
+        if rel is None:
+            raise Unsupported(f"comparison {type(op).__name__}")
+        return rel
+
+    def attr_local(self, attr):
+        return "self_" + attr.lstrip("_")
+
     def cmp_prop(self, left, op, right, env):
+        ic = self.int_cmp(left, op, right, env)
+        if ic is not None:
+            return ic
         l, r = self.expr(left, env), self.expr(right, env)
         if isinstance(op, ast.Lt):
             return f"{l} < {r}"
@@ -317,6 +693,8 @@ class Tr:
 
     def bexpr(self, n, env):
         """a Bool"""
+        if self.t.inputs and not isinstance(n, ast.Constant) and ast.unparse(n) in self.t.inputs:
+            return self.input(n, env)
         if isinstance(n, ast.Compare):
             parts = []
             left = n.left
@@ -326,6 +704,8 @@ class Tr:
                         raise Unsupported("`is` with something other than None")
                     e = self.expr(left, env)
                     parts.append(f"({e}).isNone" if isinstance(op, ast.Is) else f"({e}).isSome")
+                elif self.int_cmp(left, op, right, env) is not None:
+                    parts.append(f"decide ({self.int_cmp(left, op, right, env)})")
                 elif isinstance(op, ast.Eq):
                     l, r = self.expr(left, env), self.expr(right, env)
                     parts.append(f"(decide ({r} ≤ {l}) && decide ({l} ≤ {r}))")
@@ -385,6 +765,8 @@ class Tr:
         if isinstance(tg, ast.Name):
             return tg.id
         if isinstance(tg, ast.Attribute) and isinstance(tg.value, ast.Name) and tg.value.id == "self":
+            if self.t.attrs.get(tg.attr) == "@":
+                return self.attr_local(tg.attr)
             return "self"
         raise Unsupported(f"assignment target {ast.unparse(tg)}")
 
@@ -393,6 +775,14 @@ class Tr:
         tg = s.targets[0] if isinstance(s, ast.Assign) else s.target
         if isinstance(s, ast.Assign) and len(s.targets) != 1:
             raise Unsupported("multiple assignment targets")
+        if isinstance(tg, ast.Name):
+            if isinstance(s, ast.Assign) and self.is_nat(s.value, env):
+                if tg.id in env or tg.id in self.pnames:
+                    raise Unsupported(f"{tg.id} changes type to a count")
+                self.nat_names.add(tg.id)
+                return tg.id, self.nat(s.value, env)
+            if tg.id in self.nat_names:
+                raise Unsupported(f"reassignment of the count {tg.id}")
         val = self.expr(s.value, env)
         if isinstance(s, ast.AugAssign):
             op = {ast.Add: "+", ast.Sub: "-", ast.Mult: "*", ast.Div: "/"}.get(type(s.op))
@@ -401,7 +791,21 @@ class Tr:
             cur = self.expr(tg, env)
             val = f"({cur} {op} {val})"
         if isinstance(tg, ast.Name):
+            if isinstance(s, ast.Assign) and self.etype(s.value, env) in ("Nat", "Int"):
+                self.ltypes[tg.id] = self.etype(s.value, env)
+            elif tg.id in self.ltypes:
+                raise Unsupported(f"reassignment of the integer local {tg.id}")
             return tg.id, val
+        if isinstance(tg, ast.Attribute) and isinstance(tg.value, ast.Name) and tg.value.id == "self" \
+                and self.t.attrs.get(tg.attr) == "@":
+            k = self.attr_local(tg.attr)
+            if isinstance(s, ast.AugAssign):
+                raise Unsupported(f"augmented assignment to self.{tg.attr}")
+            if self.etype(s.value, env) in ("Nat", "Int"):
+                self.ltypes[k] = self.etype(s.value, env)
+            elif k in self.ltypes:
+                raise Unsupported(f"reassignment of the integer attribute self.{tg.attr}")
+            return k, val
         # self.attr = val
         if tg.attr not in self.t.attrs:
             raise Unsupported(f"assignment to unmapped attribute self.{tg.attr}")
@@ -479,11 +883,41 @@ class Tr:
             return f"{indent}.error {self.err(s)}"
         if isinstance(s, ast.Return):
             return indent + self.ret(s, env)
+        if isinstance(s, ast.FunctionDef):
+            # an inner function: translated as its own target; from here on it can be called by name
+            if self.t.path is None or s.decorator_list:
+                raise Unsupported(f"inner function {s.name}")
+            ct = PATHS.get((self.t.rel, self.t.path + (s.name,)))
+            if ct is None:
+                raise Unsupported(f"inner function {s.name} is not a translation target")
+            if self.done.get(ct.lean_name) != "ok":
+                raise Unsupported(f"inner function {s.name} was not translated")
+            if s.name in env or s.name in self.pnames:
+                raise Unsupported(f"inner function {s.name} rebinds a variable")
+            env2 = dict(env)
+            env2[f"def:{s.name}"] = ct.lean_name
+            return self.stmts(rest, env2, indent)
+        if isinstance(s, ast.Assign) and self.is_fcall(s.value, env):
+            e, is_except = self.fcall(s.value, env)
+            if is_except:
+                if self.t.kind != "except":
+                    raise Unsupported("bind of a fuelled call outside an 'except' function")
+                if len(s.targets) != 1 or not isinstance(s.targets[0], ast.Name):
+                    raise Unsupported("bind target")
+                k = s.targets[0].id
+                if f"def:{k}" in env:
+                    raise Unsupported(f"assignment to the inner function name {k}")
+                env2 = dict(env)
+                env2[k] = k
+                return (f"{indent}match {e} with\n{indent}| .error x => .error x\n{indent}| .ok r' =>\n"
+                        f"{indent}  let {k} := r'\n" + self.stmts(rest, env2, indent + "  "))
         if isinstance(s, (ast.Assign, ast.AugAssign)):
             # statement-level bind on a mapped call
             if isinstance(s, ast.Assign) and isinstance(s.value, ast.Call) and ast.unparse(s.value.func) in self.t.calls:
                 return self.bind(s, rest, env, indent)
             k, v = self.assign_value(s, env)
+            if f"def:{k}" in env:
+                raise Unsupported(f"assignment to the inner function name {k}")
             env2 = dict(env)
             env2[k] = k
             return f"{indent}let {k} := {v}\n" + self.stmts(rest, env2, indent)
@@ -492,6 +926,12 @@ class Tr:
         if isinstance(s, ast.If):
             if _only_warns(s.body) and not s.orelse:
                 return self.stmts(rest, env, indent)
+            od = self.option_default(s, env)
+            if od is not None:
+                k, v = od
+                env2 = dict(env)
+                env2[k] = k
+                return f"{indent}let {k} := {v}\n" + self.stmts(rest, env2, indent)
             if _has_exit(s.body) or _has_exit(s.orelse):
                 c = self.cond(s.test, env)
                 if _terminates(s.body):
@@ -512,6 +952,25 @@ class Tr:
             return out + self.stmts(rest, env2, indent)
         raise Unsupported(f"statement {type(s).__name__}")
 
+    def option_default(self, s, env):
+        """`if x is None: x = e` for a parameter `x : Option T` that has not been reassigned: from here
+        on `x : T` is `match x with | none => e | some v => v`"""
+        t = s.test
+        if s.orelse or len(s.body) != 1 or not isinstance(s.body[0], ast.Assign):
+            return None
+        if not (isinstance(t, ast.Compare) and len(t.ops) == 1 and isinstance(t.ops[0], ast.Is)
+                and isinstance(t.left, ast.Name) and isinstance(t.comparators[0], ast.Constant)
+                and t.comparators[0].value is None):
+            return None
+        x = t.left.id
+        a = s.body[0]
+        if not (len(a.targets) == 1 and isinstance(a.targets[0], ast.Name) and a.targets[0].id == x):
+            return None
+        if x in env or not self.ptypes.get(x, "").startswith("Option "):
+            return None
+        e = self.expr(a.value, env)
+        return x, f"(match {self.pnames[x]} with | none => {e} | some v' => v')"
+
     def err(self, s):
         exc = s.exc
         name = exc.func.id if isinstance(exc, ast.Call) and isinstance(exc.func, ast.Name) else (exc.id if isinstance(exc, ast.Name) else None)
@@ -524,6 +983,13 @@ class Tr:
             if s.value is None:
                 raise Unsupported("bare return in a pure function")
             return self.bexpr(s.value, env) if self.t.bool_result else self.expr(s.value, env)
+        if self.t.kind == "except":
+            if s.value is None:
+                raise Unsupported("bare return")
+            if self.is_fcall(s.value, env):
+                e, is_except = self.fcall(s.value, env)
+                return e if is_except else f".ok {e}"   # a tail call of a fuelled function is its result
+            return f".ok {self.bexpr(s.value, env) if self.t.bool_result else self.expr(s.value, env)}"
         me = env.get("self", "self")
         if self.t.unit:
             return f".ok {me}"
@@ -556,6 +1022,8 @@ class Tr:
         t = self.t
         if t.select is not None:
             return t.select(self)
+        if t.path is not None:
+            return self.path_function()
         fn = _find_func(_find_class(self.tree, t.cls), t.func)
         pyargs = [a.arg for a in fn.args.args if a.arg != "self"]
         want = [p[0] for p in t.params if not p[0].startswith("$")]
@@ -564,17 +1032,54 @@ class Tr:
         body = self.stmts(list(fn.body), {})
         return body
 
+    def path_fn(self):
+        """locate the (nested) function of a path target; check its signature and its closure"""
+        t = self.t
+        chain = _find_path(self.tree, t.path)
+        fn = chain[-1]
+        if fn.decorator_list:
+            raise Unsupported("decorated function")
+        pyargs = [a for a in _fn_args(fn) if a != "self"]
+        want = [p[0] for p in t.params if not p[0].startswith(("$", "^"))]
+        if pyargs != want:
+            raise Unsupported(f"signature of {'.'.join(t.path)} is {pyargs}, the tie expects {want}")
+        values, funcs = _closure_of(chain)
+        declared = {p[0][1:] for p in t.params if p[0].startswith("^")}
+        if values != declared:
+            raise Unsupported(f"closure variables of {'.'.join(t.path)} are {sorted(values)}, the tie expects {sorted(declared)}")
+        if funcs - {fn.name}:
+            raise Unsupported(f"{'.'.join(t.path)} refers to the enclosing functions {sorted(funcs - {fn.name})}")
+        recursive = fn.name in funcs or (len(chain) == 1 and fn.name in _free_names(fn))
+        return fn, recursive
+
+    def path_function(self):
+        t = self.t
+        fn, recursive = self.path_fn()
+        if t.fuel and t.kind != "except":
+            raise Unsupported("a fuelled function must be of kind 'except'")
+        if recursive and not (t.fuel and t.rec_err):
+            raise Unsupported(f"{'.'.join(t.path)} is recursive; the tie expects no recursion")
+        if recursive:
+            body = self.stmts(list(fn.body), {}, "    ")
+            return f"  match fuel with\n  | 0 => .error {t.rec_err}\n  | fuel + 1 =>\n{body}"
+        return self.stmts(list(fn.body), {})
+
     def header(self):
         t = self.t
         bs = []
         if t.self_type:
             bs.append(f"(self : {t.self_type})")
         for _py, ln, ty in t.params:
-            bs.append(f"({ln} : {ty})")
+            if ty != "-":
+                bs.append(f"({ln} : {ty})")
         if t.extra_binders:
             bs.append(t.extra_binders)
+        if t.fuel:
+            bs.insert(0, "(fuel : Nat)")
         if t.kind == "method":
             rt = f"Except {t.err_type} ({t.self_type})" if t.unit else f"Except {t.err_type} ({t.self_type} × K)"
+        elif t.kind == "except":
+            rt = f"Except {t.err_type} ({t.ret})"
         else:
             rt = t.ret
         return f"def {t.lean_name} {' '.join(bs)} : {rt} :="
@@ -747,6 +1252,195 @@ def _sel_sort_table(tr: Tr):
     return "  [" + ", ".join(rows) + "]"
 
 
+def _sel_prefix(tr: Tr):
+    """the straight-line prefix of a path function: its leading run of plain assignments `x = e` to
+    distinct local names; the result is the tuple of the locals named in `locals_types["$prefix"]`
+    (all of which must be assigned there) — what the rest of the function starts from"""
+    fn, recursive = tr.path_fn()
+    if recursive:
+        raise Unsupported("prefix of a recursive function")
+    env, lets, names = {}, [], []
+    for st in fn.body:
+        if _is_docstring(st):
+            continue
+        if not (isinstance(st, ast.Assign) and len(st.targets) == 1 and isinstance(st.targets[0], ast.Name)):
+            break
+        k, v = tr.assign_value(st, env)
+        if k in names or k in tr.pnames:
+            break
+        lets.append(f"  let {k} := {v}")
+        env[k] = k
+        names.append(k)
+    want = list(tr.t.locals_types.get("$prefix", ()))
+    if not want or set(want) - set(names):
+        raise Unsupported(f"the function starts by assigning {names}, the tie expects {want}")
+    return "\n".join(lets) + "\n  (" + ", ".join(want) + ")"
+
+
+class _NpTr(Tr):
+    """SCALAR reading of a numpy broadcast expression: the value at one index (one constraint, one
+    period).  Shape operations are the identity on it (`np.tile(x, reps)`, `.T`, `np.all` of a single
+    Boolean), `np.maximum`/`np.minimum`/`np.abs` are the elementwise `max`/`min`/`abs`, and `x[j]` for the
+    index variable `j` of the enclosing `for j, … in enumerate(…)` is the element itself."""
+    index_vars = ()
+
+    def call(self, n, env):
+        f = ast.unparse(n.func)
+        if f in ("np.all", "numpy.all") and len(n.args) == 1 and not n.keywords:
+            return self.bexpr(n.args[0], env)
+        if f in ("np.tile", "numpy.tile") and len(n.args) == 2 and not n.keywords:
+            return self.expr(n.args[0], env)
+        if f in ("np.maximum", "numpy.maximum", "np.minimum", "numpy.minimum") and len(n.args) == 2 and not n.keywords:
+            fn = "pyMax" if f.endswith("maximum") else "pyMin"
+            return f"({fn} {self.expr(n.args[0], env)} {self.expr(n.args[1], env)})"
+        if f in ("np.abs", "numpy.abs", "np.absolute") and len(n.args) == 1 and not n.keywords:
+            return f"(absK {self.expr(n.args[0], env)})"
+        return super().call(n, env)
+
+    def expr(self, n, env):
+        if isinstance(n, ast.Attribute) and n.attr == "T" and not (self.t.inputs and ast.unparse(n) in self.t.inputs):
+            return self.expr(n.value, env)
+        if isinstance(n, ast.Subscript) and isinstance(n.slice, ast.Name) and n.slice.id in self.index_vars \
+                and not (self.t.inputs and ast.unparse(n) in self.t.inputs):
+            return self.expr(n.value, env)
+        return super().expr(n, env)
+
+
+def _sel_final_return(tr: Tr):
+    """the expression of the final `return` of a path function as a function of the plain top-level
+    assignments before it.  Statements in between that are NOT part of this reading: guards
+    `if …: return <constant>` (no else), and assignments whose value is outside the subset — such a local
+    is then unreadable (a use of it is `Unsupported`) unless the target declares the using expression as
+    an input."""
+    fn, _rec = tr.path_fn()
+    body = [st for st in fn.body if not _is_docstring(st)]
+    if not body or not isinstance(body[-1], ast.Return) or body[-1].value is None:
+        raise Unsupported("the function does not end in `return <expression>`")
+    env, lets = {}, []
+    for st in body[:-1]:
+        if isinstance(st, ast.If):
+            od = tr.option_default(st, env)
+            if od is not None:
+                lets.append(f"  let {od[0]} := {od[1]}")
+                env[od[0]] = od[0]
+                continue
+            if not st.orelse and len(st.body) == 1 and isinstance(st.body[0], ast.Return) \
+                    and isinstance(st.body[0].value, ast.Constant):
+                continue  # a guard with a constant answer
+            raise Unsupported("an `if` before the final return that is neither an Optional default nor a constant guard")
+        if isinstance(st, ast.Assign) and len(st.targets) == 1 and isinstance(st.targets[0], ast.Name):
+            k = st.targets[0].id
+            try:
+                k, v = tr.assign_value(st, env)
+            except Unsupported:
+                if k in tr.pnames:
+                    raise
+                env.pop(k, None)  # unreadable from here on
+                continue
+            lets.append(f"  let {k} := {v}")
+            env[k] = k
+            continue
+        raise Unsupported(f"statement {type(st).__name__} before the final return")
+    val = tr.bexpr(body[-1].value, env) if tr.t.bool_result else tr.expr(body[-1].value, env)
+    return "\n".join(lets + ["  " + val])
+
+
+def _sel_while_test(tr: Tr):
+    """the test of the only `while` of a path function (it must be a top-level statement), over the plain
+    assignments before it; an assignment whose value is outside the subset makes that name unreadable"""
+    fn, _rec = tr.path_fn()
+    body = [st for st in fn.body if not _is_docstring(st)]
+    whiles = [m for m in ast.walk(fn) if isinstance(m, ast.While)]
+    if len(whiles) != 1 or whiles[0] not in body:
+        raise Unsupported("expected exactly one top-level `while`")
+    env, lets = {}, []
+    for st in body[:body.index(whiles[0])]:
+        if not (isinstance(st, ast.Assign) and len(st.targets) == 1):
+            raise Unsupported(f"statement {type(st).__name__} before the loop")
+        k = tr.target_key(st.targets[0])
+        if k == "self":
+            raise Unsupported(f"assignment to {ast.unparse(st.targets[0])} before the loop")
+        try:
+            k, v = tr.assign_value(st, env)
+        except Unsupported:
+            if k in tr.pnames:
+                raise
+            env.pop(k, None)
+            continue
+        lets.append(f"  let {k} := {v}")
+        env[k] = k
+    return "\n".join(lets + ["  " + tr.bexpr(whiles[0].test, env)])
+
+
+def _sel_loop_test(linear: bool):
+    """utils.py `infrastructure_constraints_feasible`: the scalar form of the test `C` in
+    `for j, v in enumerate(infrastructure.constraint_matrix): …; if not np.all(C): return False`
+    of the `linear` / phase-aware branch (the top-level `if not linear: … else: …`), over the top-level
+    assignments before that `if`"""
+    def sel(tr: Tr):
+        fn, _rec = tr.path_fn()
+        body = [st for st in fn.body if not _is_docstring(st)]
+        env, lets = {}, []
+        split = None
+        for i, st in enumerate(body):
+            if isinstance(st, ast.Assign) and len(st.targets) == 1 and isinstance(st.targets[0], ast.Name):
+                k, v = tr.assign_value(st, env)
+                lets.append(f"  let {k} := {v}")
+                env[k] = k
+                continue
+            split = i
+            break
+        if split is None or not isinstance(body[split], ast.If) or not body[split].orelse:
+            raise Unsupported("expected `if [not] linear: … else: …` after the leading assignments")
+        iff = body[split]
+        if [type(x) for x in body[split + 1:]] != [ast.Return] or not (
+                isinstance(body[-1].value, ast.Constant) and body[-1].value.value is True):
+            raise Unsupported("expected `return True` after the two loops")
+        t = iff.test
+        if isinstance(t, ast.UnaryOp) and isinstance(t.op, ast.Not) and ast.unparse(t.operand) == "linear":
+            branch = iff.orelse if linear else iff.body
+        elif ast.unparse(t) == "linear":
+            branch = iff.body if linear else iff.orelse
+        else:
+            raise Unsupported(f"branch condition {ast.unparse(t)}")
+        loops = [x for x in branch if isinstance(x, ast.For)]
+        if len(loops) != 1 or any(isinstance(x, (ast.Return, ast.Raise, ast.While, ast.If)) for x in branch):
+            raise Unsupported("expected exactly one `for` loop (and no other control flow) in the branch")
+        loop = loops[0]
+        if loop.orelse or not (isinstance(loop.target, ast.Tuple) and len(loop.target.elts) == 2
+                               and all(isinstance(e, ast.Name) for e in loop.target.elts)
+                               and isinstance(loop.iter, ast.Call) and ast.unparse(loop.iter.func) == "enumerate"
+                               and len(loop.iter.args) == 1 and not loop.iter.keywords):
+            raise Unsupported("expected `for j, v in enumerate(…)`")
+        j = loop.target.elts[0].id
+        tests = [x for x in loop.body if isinstance(x, ast.If)]
+        if len(tests) != 1 or any(isinstance(m, (ast.Return, ast.Raise, ast.Break, ast.Continue))
+                                  for x in loop.body if not isinstance(x, ast.If) for m in ast.walk(x)):
+            raise Unsupported("expected exactly one `if` (the only exit) in the loop body")
+        test = tests[0]
+        if test.orelse or len(test.body) != 1 or not (isinstance(test.body[0], ast.Return)
+                and isinstance(test.body[0].value, ast.Constant) and test.body[0].value.value is False):
+            raise Unsupported("expected `if not np.all(…): return False`")
+        c = test.test
+        if not (isinstance(c, ast.UnaryOp) and isinstance(c.op, ast.Not) and isinstance(c.operand, ast.Call)
+                and ast.unparse(c.operand.func) in ("np.all", "numpy.all")):
+            raise Unsupported("expected `if not np.all(…): return False`")
+        # locals assigned in the loop body shadow nothing we translated
+        for x in loop.body:
+            for m in ast.walk(x):
+                if isinstance(m, ast.Name) and isinstance(m.ctx, ast.Store) and m.id in env:
+                    raise Unsupported(f"the loop reassigns {m.id}")
+        tr.index_vars = (j,)
+        return "\n".join(lets + ["  " + tr.bexpr(c.operand, env)])
+    return sel
+
+
+FIT_PATH = ("batt_cap_fn", "_get_init_cap")
+FIT_OUTER = [("^requested_energy", "requested_energy", "K"), ("^stay_dur", "stay_dur", "K"),
+             ("^voltage", "voltage", "K"), ("^period", "period", "K")]
+FIT_OWN = [("battery_cap", "battery_cap", "K"), ("max_rate", "max_rate", "K"),
+           ("transition_soc", "transition_soc", "K")]
+
 TARGETS = [
     Target("battery_charge", BATT, "Battery", "charge", self_type="Batt K", params=PVT, kind="method",
            attrs=BATT_ATTRS, props=BATT_PROPS, err_type="Battery.Err", errs={"ValueError": ".valueError"},
@@ -800,22 +1494,113 @@ TARGETS = [
            doc="largest_remaining_processing_time.remaining_processing_time", group="Sorted"),
     Target("sort_table", SORTED, None, "sorted", params=[], ret="List (String × String × Bool)", kind="pure",
            select=_sel_sort_table, doc="the five sort functions: (function, key, reverse)", group="SortTable"),
+    # ---- group Fit (C15): the two-stage capacity fit of battery.py `batt_cap_fn`.  Inner functions come
+    # first: an outer function can only call inner functions that were translated before it.
+    Target("fit_delta_soc", BATT, None, "delta_soc_from_init_soc", path=FIT_PATH + ("delta_soc_from_init_soc",),
+           params=[("^stay_dur", "stay_dur", "K"), ("^transition_soc", "transition_soc", "K"),
+                   ("^max_dsoc", "max_dsoc", "K"), ("init_soc_guess", "init_soc_guess", "K")],
+           ret="K", kind="pure", doc="batt_cap_fn._get_init_cap.delta_soc_from_init_soc", group="Fit"),
+    Target("fit_binsearch", BATT, None, "binsearch", path=FIT_PATH + ("binsearch",),
+           params=[("f", "f", "K → K"), ("lb", "lb", "K"), ("ub", "ub", "K"), ("target", "target", "K"),
+                   ("tol", "tol", "K")],
+           ret="K", kind="except", fuel=True, rec_err=".recursion", err_type="Sessions.Err",
+           doc="batt_cap_fn._get_init_cap.binsearch (Python recursion depth = fuel)", group="Fit"),
+    Target("fit_closed_init_soc", BATT, None, "_get_init_cap", path=FIT_PATH, params=FIT_OUTER + FIT_OWN,
+           ret="K × K × K", kind="pure", select=_sel_prefix,
+           locals_types={"$prefix": ("delta_soc", "max_dsoc", "init_soc")},
+           doc="batt_cap_fn._get_init_cap: the closed-form prefix (delta_soc, max_dsoc, init_soc)", group="Fit"),
+    Target("fit_get_init_cap", BATT, None, "_get_init_cap", path=FIT_PATH, params=FIT_OUTER + FIT_OWN,
+           ret="K", kind="except", fuel=True, err_type="Sessions.Err",
+           doc="batt_cap_fn._get_init_cap", group="Fit"),
 ]
 
+TARGETS += [
+    # ---- group Net (C06): the scalar limit test of the two feasibility checkers
+    Target("net_limit_test", "acnportal/acnsim/network/charging_network.py", None, "is_feasible",
+           path=("ChargingNetwork", "is_feasible"),
+           params=[("$lim", "lim", "K"), ("$nvt", "net_vt", "K"), ("$nrt", "net_rt", "K"), ("$mag", "mag", "K"),
+                   ("schedule_matrix", "_", "-"), ("linear", "_", "-"),
+                   ("violation_tolerance", "violation_tolerance", "Option K"),
+                   ("relative_tolerance", "relative_tolerance", "Option K")],
+           attrs={"magnitudes": "lim", "violation_tolerance": "net_vt", "relative_tolerance": "net_rt"},
+           inputs={"np.abs(aggregate_currents)": "mag"}, ret="Bool", kind="pure", bool_result=True,
+           select=_sel_final_return,
+           doc="ChargingNetwork.is_feasible: scalar form (one constraint `lim`, one period, |aggregate current| = `mag`) "
+               "of the final comparison", group="Net"),
+    Target("alg_limit_test", "acnportal/algorithms/utils.py", None, "infrastructure_constraints_feasible",
+           path=("infrastructure_constraints_feasible",),
+           params=[("$lim", "lim", "K"), ("$mag", "mag", "K"), ("rates", "_", "-"), ("infrastructure", "_", "-"),
+                   ("linear", "_", "-"), ("violation_tolerance", "violation_tolerance", "K"),
+                   ("relative_tolerance", "relative_tolerance", "K")],
+           attrs={"infrastructure.constraint_limits": "lim"}, inputs={"line_currents": "mag"},
+           ret="Bool", kind="pure", bool_result=True, select=_sel_loop_test(False),
+           doc="infrastructure_constraints_feasible: scalar form of the per-constraint test, phase-aware branch",
+           group="Net"),
+    Target("alg_limit_test_linear", "acnportal/algorithms/utils.py", None, "infrastructure_constraints_feasible",
+           path=("infrastructure_constraints_feasible",),
+           params=[("$lim", "lim", "K"), ("$mag", "mag", "K"), ("rates", "_", "-"), ("infrastructure", "_", "-"),
+                   ("linear", "_", "-"), ("violation_tolerance", "violation_tolerance", "K"),
+                   ("relative_tolerance", "relative_tolerance", "K")],
+           attrs={"infrastructure.constraint_limits": "lim"}, inputs={"line_currents": "mag"},
+           ret="Bool", kind="pure", bool_result=True, select=_sel_loop_test(True),
+           doc="infrastructure_constraints_feasible: scalar form of the per-constraint test, linear branch",
+           group="Net"),
+]
+ANPY = "acnportal/acnsim/analysis/__init__.py"
+AN_EVS = {"list": "evs", "attrs": {"requested_energy": "requested", "energy_delivered": "delivered"},
+          "props": {"remaining_demand": (EVPY, "EV", "remaining_demand")}}
+AN_COLLS = {"sim.ev_history.values()": AN_EVS, "sim.ev_history": AN_EVS}
+AN_SIM = [("sim", "evs", "List (Analysis.Ev K)")]
+TARGETS += [
+    # ---- group Analysis (C18): the energy metrics of analysis/__init__.py over `sim.ev_history`
+    Target("an_total_delivered", ANPY, None, "total_energy_delivered", path=("total_energy_delivered",),
+           params=AN_SIM, colls=AN_COLLS, ret="K", kind="pure", doc="total_energy_delivered", group="Analysis"),
+    Target("an_total_requested", ANPY, None, "total_energy_requested", path=("total_energy_requested",),
+           params=AN_SIM, colls=AN_COLLS, ret="K", kind="pure", doc="total_energy_requested", group="Analysis"),
+    Target("an_proportion_delivered", ANPY, None, "proportion_of_energy_delivered",
+           path=("proportion_of_energy_delivered",), params=AN_SIM, colls=AN_COLLS, ret="K", kind="pure",
+           doc="proportion_of_energy_delivered (Python raises ZeroDivisionError on a zero total)", group="Analysis"),
+    Target("an_demands_met", ANPY, None, "proportion_of_demands_met", path=("proportion_of_demands_met",),
+           params=AN_SIM + [("threshold", "threshold", "K")], colls=AN_COLLS, ret="K", kind="pure",
+           doc="proportion_of_demands_met (Python raises ZeroDivisionError without sessions)", group="Analysis"),
+]
+TARGETS += [
+    # ---- group Queue (C11, C01): the order of heap entries with equal timestamps, and the loop test of
+    # `get_current_events`
+    Target("event_lt", "acnportal/acnsim/events/event.py", None, "__lt__", path=("Event", "__lt__"),
+           self_type="Event", params=[("other", "other", "Event")],
+           attrs={"precedence": "self.kind.prec", "other.precedence": "other.kind.prec"},
+           ret="Bool", kind="pure", bool_result=True, doc="Event.__lt__", group="Queue"),
+    Target("queue_loop_cond", "acnportal/acnsim/events/event_queue.py", None, "get_current_events",
+           path=("EventQueue", "get_current_events"),
+           params=[("$n", "qlen", "Nat"), ("$h", "headTs", "Int"), ("timestep", "timestep", "Int")],
+           attrs={"_timestep": "@"}, props={"empty": ("EventQueue", "empty")},
+           inputs={"len(self._queue)": "qlen", "self._queue[0][0]": "headTs"},
+           ret="Bool", kind="pure", bool_result=True, select=_sel_while_test,
+           doc="EventQueue.get_current_events: the loop test over (len(_queue), _queue[0][0], timestep)",
+           group="Queue"),
+]
+TR_CLASS = {"net_limit_test": _NpTr, "alg_limit_test": _NpTr, "alg_limit_test_linear": _NpTr}
 
-GROUPS = ["Battery", "Evse", "Sim", "Sorted"]  # "SortTable" targets are emitted outside the K-section of Sorted
+PATHS = {(t.rel, t.path): t for t in TARGETS if t.path is not None and t.select is None}
+GROUP_IMPORTS = {"Fit": ["AcnModel.Sessions"], "Analysis": ["AcnModel.Analysis"], "Queue": ["AcnModel.Event"]}
+
+
+GROUPS = ["Battery", "Evse", "Sim", "Sorted", "Fit", "Net", "Analysis", "Queue"]  # "SortTable" targets are emitted outside the K-section of Sorted
 
 
 def gen_code(group: str) -> str:
     out = ["/- GENERATED by harness/translate_code.py from /repo's working tree — do not edit.",
            "   Mechanical translation of the bodies of small numeric methods (T1c); the tie theorems",
            f"   `Gen.Code.<f> = <hand model>` are in AcnProofs/Lemmas/CodeTie{group}.lean. -/",
-           "import AcnModel.Evse", "", "namespace Acn.Gen.Code", "open Acn Acn.Battery Acn.Evse", "",
+           "import AcnModel.Evse"] + [f"import {m}" for m in GROUP_IMPORTS.get(group, [])] + [
+           "", "namespace Acn.Gen.Code", "open Acn Acn.Battery Acn.Evse", "",
            "section",
            "variable {K : Type} [Add K] [Sub K] [Mul K] [Div K] [Neg K] [LT K] [LE K]",
            "  [DecidableLT K] [DecidableLE K] [OfNat K 0] [OfNat K 1] [NatCast K] [HasExp K]", ""]
     cache = {}
     status = []
+    done = {}
     for t in [t for t in TARGETS if t.group == group]:
         try:
             if t.rel not in cache:
@@ -823,13 +1608,15 @@ def gen_code(group: str) -> str:
                 cache[t.rel] = (s, ast.parse(s))
             s, tree = cache[t.rel]
             cls = _AmpTr if t.lean_name == "amp_periods" else (_KeyTr if t.lean_name in ("laxity_key", "rpt_key") else Tr)
-            tr = cls(t, s, tree)
+            cls = TR_CLASS.get(t.lean_name, cls)
+            tr = cls(t, s, tree, done)
             body = tr.function()
             out.append(f"/-- {t.rel}: {t.doc} (translated) -/")
             out.append(tr.header())
             out.append(body)
             out.append("")
             status.append((t.lean_name, "ok"))
+            done[t.lean_name] = "ok"
         except (Unsupported, SyntaxError, KeyError, AttributeError, IndexError, TypeError, ValueError) as e:
             # the definition is NOT emitted: the tie theorem that names it no longer compiles
             msg = str(e).replace("-/", "- /")
